@@ -62,7 +62,8 @@ TRUSTED = [
 ASSUMPTIONS = [
     "points and root box are finite doubles (no NaN/inf); indices passed to insert() are within the data",
     "force clauses: no two inserted points coincide (as in the property statement)",
-    "theorems are about runs that end (Done); insert_fuel bounds the recursion for grid points",
+    "theorems are about model runs that end (Done); insert_terminates shows that for every rational input some fuel "
+    "gives Done, insert_fuel gives the bound d + 3 on grids (the real recursion in binary64 is bounded by the exponent range)",
 ]
 
 FUEL = 1100
